@@ -319,6 +319,33 @@ Proof.
     left. destruct isstr; simpl; lia.
 Qed.
 
+Lemma source_cap_inv h bb lg d spare h' x :
+  Inv3 h bb lg -> source_cap h d spare = (h', x) ->
+  Inv3 h' bb (lg ++ [x]) /\ hd_want x = d /\ hd_live x = true.
+Proof.
+  intros (WB & FA & PW) S. unfold source_cap, alloc in S. injection S as <- <-.
+  split; [|split; reflexivity].
+  pose proof WB as (B1 & B2 & B3).
+  split; [|split].
+  - unfold wf_slice; simpl. split; [lia|]. split; [|exact B3].
+    destruct (Nat.eqb_spec (s_arr bb) (h_next h)); [lia|auto].
+  - apply Forall_app; split.
+    + rewrite Forall_forall in FA |- *. intros y Hy Ly.
+      destruct (FA y Hy Ly) as ((Wy1 & Wy2 & Wy3) & Ry & Fy).
+      split; [|split; [|exact Fy]].
+      * unfold wf_slice; simpl. split; [lia|]. split; [|exact Wy3].
+        destruct (Nat.eqb_spec (s_arr (hd_sl y)) (h_next h)); [lia|auto].
+      * rewrite <- Ry. unfold read; simpl.
+        destruct (Nat.eqb_spec (s_arr (hd_sl y)) (h_next h)); [lia|reflexivity].
+    + constructor; [|constructor]. intros _. unfold mk_hand; simpl.
+      split; [unfold wf_slice; simpl; rewrite Nat.eqb_refl; simpl; lia|]. split.
+      * unfold read; simpl. rewrite Nat.eqb_refl; simpl. apply map_nth_seq0.
+      * simpl. intros E. lia.
+  - apply pairwise_snoc; auto. intros y Hy Ly _.
+    rewrite Forall_forall in FA. destruct (FA y Hy Ly) as ((Wy1 & _) & _).
+    left. simpl; lia.
+Qed.
+
 Lemma copy_values_inv its : forall h bb lg e h' bb' xs,
   Inv3 h bb lg -> copy_values h bb its e = (h', bb', xs) -> Inv3 h' bb' (lg ++ xs).
 Proof.
@@ -361,10 +388,52 @@ Proof.
     replace (S off + i) with (off + S i) in IH by lia. exact IH.
 Qed.
 
+(* the client re-fills its own slice from the start (unbuffered Set on that field); with nothing to
+   fill in, that is x = x[:0] *)
+Lemma setunbuf_inv h bb lg k d e :
+  Inv3 h bb lg -> Inv (step {| st_heap := h; st_bb := bb; st_log := lg |} (CSetUnbuf k d e)).
+Proof.
+  unfold Inv; simpl. intros I.
+  destruct (nth_error lg k) as [x|] eqn:Hk; [|exact I].
+  destruct (negb (hd_str x) && hd_live x) eqn:G; [|exact I].
+  apply andb_true_iff in G. destruct G as (Gs & Lx).
+  set (s0 := {| s_arr := s_arr (hd_sl x); s_off := s_off (hd_sl x); s_len := 0; s_cap := s_cap (hd_sl x) |}).
+  destruct (append h s0 d e) as [h' s'] eqn:A. simpl.
+  destruct I as (WB & F & P). rewrite Forall_forall in F.
+  destruct (F x (nth_error_In _ _ Hk) Lx) as (Wx & Rx & Fx).
+  assert (W0 : wf_slice h s0) by (destruct Wx as (X1 & X2 & X3); unfold wf_slice, s0; simpl; repeat split; auto; lia).
+  destruct (append_spec _ _ _ _ _ _ W0 A) as (Ws' & RD & LEN & NX & WFP & FR & CASES).
+  assert (Lk : k < List.length lg) by (apply nth_error_Some; congruence).
+  split; [apply WFP; exact WB|]. split.
+  + apply Forall_forall. intros y Hy.
+    apply In_nth_error in Hy. destruct Hy as (j & Hj).
+    destruct (Nat.eq_dec j k) as [E|E].
+    * subst j. rewrite nth_error_upd_nth_eq in Hj by auto. inversion Hj; subst y. intros _. simpl.
+      split; [exact Ws'|]. split; [rewrite RD; reflexivity|].
+      unfold hand_hi; simpl. intros E.
+      destruct CASES as [(C1 & C2 & C3)|(C1 & C2 & C3)]; simpl in *.
+      -- rewrite C1 in E. specialize (Fx E). unfold hand_hi in Fx. rewrite C2, C3. exact Fx.
+      -- destruct WB as (WB1 & _). rewrite C1 in E. lia.
+    * rewrite nth_error_upd_nth_neq in Hj by auto. intros Ly.
+      destruct (F y (nth_error_In _ _ Hj) Ly) as (Wy & Ry & Fy).
+      split; [apply WFP; exact Wy|]. split; [|exact Fy].
+      rewrite FR; auto.
+      pose proof (P j k y x E Hj Hk Ly Lx) as D. destruct Wy as (_ & _ & Wy3).
+      unfold disj, hand_hi, hand_lo in D. simpl.
+      destruct D as [D|[D|D]]; [left; exact D | right; left; lia | right; right; lia].
+  + eapply pairwise_upd; eauto. intros j y Hjk Hj Ly _.
+    pose proof (P j k y x Hjk Hj Hk Ly Lx) as D.
+    destruct (F y (nth_error_In _ _ Hj) Ly) as ((Wy1 & _) & _).
+    unfold disj, hand_hi, hand_lo in *; simpl.
+    destruct CASES as [(C1 & C2 & C3)|(C1 & C2 & C3)]; simpl in *.
+    * rewrite C1, C2, C3. exact D.
+    * left. rewrite C1. lia.
+Qed.
+
 Theorem step_inv st o : Inv st -> Inv (step st o).
 Proof.
   destruct st as [h bb lg]. unfold Inv; simpl. intros I.
-  destruct o as [d e|d e|d e|d e|d e|fs e| |k i c|k d e|k d e|k e|fs e|k d e|isstr d|reuse ts e|reuse ss ds l e]; simpl.
+  destruct o as [d e|d e|d e|d e|d e|fs e| |k i c|k d e|k d e|k e|fs e|k d e|isstr d|reuse ts e|reuse ss ds l e|d spare|k|v reuse ks e]; simpl.
   - destruct (bufferize1 h bb false d e) as [[h' bb'] x] eqn:B. simpl.
     apply (bufferize1_inv _ _ _ _ _ _ _ _ _ I B).
   - destruct (bufferize1 h bb true d e) as [[h' bb'] x] eqn:B. simpl.
@@ -453,40 +522,7 @@ Proof.
       * rewrite C1, C2, C3. exact D.
       * left. rewrite C1. lia.
   - (* client re-fills its own slice from the start (unbuffered Set on that field) *)
-    destruct (nth_error lg k) as [x|] eqn:Hk; [|exact I].
-    destruct (negb (hd_str x) && hd_live x) eqn:G; [|exact I].
-    apply andb_true_iff in G. destruct G as (Gs & Lx).
-    set (s0 := {| s_arr := s_arr (hd_sl x); s_off := s_off (hd_sl x); s_len := 0; s_cap := s_cap (hd_sl x) |}).
-    destruct (append h s0 d e) as [h' s'] eqn:A. simpl.
-    destruct I as (WB & F & P). rewrite Forall_forall in F.
-    destruct (F x (nth_error_In _ _ Hk) Lx) as (Wx & Rx & Fx).
-    assert (W0 : wf_slice h s0) by (destruct Wx as (X1 & X2 & X3); unfold wf_slice, s0; simpl; repeat split; auto; lia).
-    destruct (append_spec _ _ _ _ _ _ W0 A) as (Ws' & RD & LEN & NX & WFP & FR & CASES).
-    assert (Lk : k < List.length lg) by (apply nth_error_Some; congruence).
-    split; [apply WFP; exact WB|]. split.
-    + apply Forall_forall. intros y Hy.
-      apply In_nth_error in Hy. destruct Hy as (j & Hj).
-      destruct (Nat.eq_dec j k) as [E|E].
-      * subst j. rewrite nth_error_upd_nth_eq in Hj by auto. inversion Hj; subst y. intros _. simpl.
-        split; [exact Ws'|]. split; [rewrite RD; reflexivity|].
-        unfold hand_hi; simpl. intros E.
-        destruct CASES as [(C1 & C2 & C3)|(C1 & C2 & C3)]; simpl in *.
-        -- rewrite C1 in E. specialize (Fx E). unfold hand_hi in Fx. rewrite C2, C3. exact Fx.
-        -- destruct WB as (WB1 & _). rewrite C1 in E. lia.
-      * rewrite nth_error_upd_nth_neq in Hj by auto. intros Ly.
-        destruct (F y (nth_error_In _ _ Hj) Ly) as (Wy & Ry & Fy).
-        split; [apply WFP; exact Wy|]. split; [|exact Fy].
-        rewrite FR; auto.
-        pose proof (P j k y x E Hj Hk Ly Lx) as D. destruct Wy as (_ & _ & Wy3).
-        unfold disj, hand_hi, hand_lo in D. simpl.
-        destruct D as [D|[D|D]]; [left; exact D | right; left; lia | right; right; lia].
-    + eapply pairwise_upd; eauto. intros j y Hjk Hj Ly _.
-      pose proof (P j k y x Hjk Hj Hk Ly Lx) as D.
-      destruct (F y (nth_error_In _ _ Hj) Ly) as ((Wy1 & _) & _).
-      unfold disj, hand_hi, hand_lo in *; simpl.
-      destruct CASES as [(C1 & C2 & C3)|(C1 & C2 & C3)]; simpl in *.
-      * rewrite C1, C2, C3. exact D.
-      * left. rewrite C1. lia.
+    apply (setunbuf_inv h bb lg k d e I).
   - (* a handed-out value is fed back into the buffer: a fresh copy is handed out *)
     destruct (nth_error lg k) as [x|] eqn:Hk; [|exact I].
     destruct (hd_live x) eqn:Lx; [|exact I].
@@ -508,6 +544,16 @@ Proof.
   - (* CopyTo of the built-in strings inspector *)
     destruct (copy_values h bb (items_of_strings ss ds l) e) as [[h' bb'] xs] eqn:C. simpl.
     apply (copy_values_inv _ _ _ _ _ _ _ _ I C).
+  - (* a []byte of the client with spare capacity comes under observation: the whole capacity is its extent *)
+    destruct (source_cap_inv h bb lg d spare _ _ I eq_refl) as (I' & _). exact I'.
+  - (* x = x[:0]: an unbuffered re-fill with nothing *)
+    apply (setunbuf_inv h bb lg k [] 0 I).
+  - (* a copy whose source fields are observed values: every field takes a new region of the buffer *)
+    destruct (held lg ks) as [xs|]; [|exact I].
+    destruct (via_ok v xs); [|exact I].
+    destruct (copy_fields h bb (held_fields v xs) e) as [[h' bb'] ys] eqn:C. simpl.
+    destruct (copy_fields_inv _ _ _ _ _ _ _ _ I C) as (I' & Z & _).
+    destruct (via_releases v); [rewrite (release_eq _ _ Z)|]; exact I'.
 Qed.
 
 Lemma init_inv size : Inv (init size).
@@ -584,7 +630,7 @@ End Tight.
 (* ---------- [hd_want] changes only through its holder's own operations ---------- *)
 Definition targets (o : op) (k : nat) : bool :=
   match o with
-  | CWrite k' _ _ | CAppend k' _ _ | CSetUnbuf k' _ _ => Nat.eqb k k'
+  | CWrite k' _ _ | CAppend k' _ _ | CSetUnbuf k' _ _ | CTruncate k' => Nat.eqb k k'
   | _ => false
   end.
 
@@ -595,7 +641,7 @@ Proof.
   intros Hk T NR. destruct st as [h bb lg]; simpl in *.
   assert (APP : forall xs, nth_error (lg ++ xs) k = Some x)
     by (intros xs; rewrite nth_error_app1; auto; apply nth_error_Some; congruence).
-  destruct o as [d e|d e|d e|d e|d e|fs e| |k' i c|k' d e|k' d e|k' e|fs e|k' d e|isstr d|reuse ts e|reuse ss ds l e]; simpl in *;
+  destruct o as [d e|d e|d e|d e|d e|fs e| |k' i c|k' d e|k' d e|k' e|fs e|k' d e|isstr d|reuse ts e|reuse ss ds l e|d spare|k'|v reuse ks e]; simpl in *;
     try congruence.
   - destruct (bufferize1 tight h bb false d e) as [[? ?] ?]; simpl; eauto.
   - destruct (bufferize1 tight h bb true d e) as [[? ?] ?]; simpl; eauto.
@@ -623,6 +669,14 @@ Proof.
   - destruct (source1 h isstr d) as [? ?]; simpl; eauto.
   - destruct (copy_values tight h bb (items_of_toks ts) e) as [[? ?] ?]; simpl; eauto.
   - destruct (copy_values tight h bb (items_of_strings ss ds l) e) as [[? ?] ?]; simpl; eauto.
+  - destruct (source_cap h d spare) as [? ?]; simpl; eauto.
+  - apply Nat.eqb_neq in T.
+    destruct (nth_error lg k') as [y|]; simpl; eauto.
+    destruct (_ && _); simpl; eauto.
+    rewrite nth_error_upd_nth_neq by auto. eauto.
+  - destruct (held lg ks) as [xs|]; simpl; eauto.
+    destruct (via_ok v xs); simpl; eauto.
+    destruct (copy_fields tight h bb (held_fields v xs) e) as [[? ?] ?]; simpl; eauto.
 Qed.
 
 (* ---------- a built-in CopyTo is the sequence of its Bufferize calls ---------- *)
@@ -664,6 +718,82 @@ Proof.
   destruct st as [h bb lg]. split; intros; simpl; apply copy_values_expand.
 Qed.
 
+
+(* ---------- sources with spare capacity, emptied values, copies of observed values ---------- *)
+Lemma append_len h s d e h' s' : append h s d e = (h', s') -> s_len s' = s_len s + List.length d.
+Proof.
+  unfold append. destruct (s_len s + List.length d <=? s_cap s).
+  - intros A; inversion A; reflexivity.
+  - destruct (alloc _ _ _) as [h1 a]. intros A; inversion A; reflexivity.
+Qed.
+
+Lemma copy_fields_len0 tight fs : forall h bb e h' bb' xs,
+  Buffer.copy_fields tight h bb fs e = (h', bb', xs) ->
+  s_len bb <= s_len bb' /\ (s_len bb' = 0 -> bb' = bb).
+Proof.
+  induction fs as [|[isstr d] r IH]; intros h bb e h' bb' xs C; simpl in C.
+  - inversion C; subst. auto.
+  - unfold Buffer.bufferize1 in C.
+    destruct (append h bb d e) as [h1 bb1] eqn:A.
+    destruct (Buffer.copy_fields tight h1 bb1 r e) as [[h2 bb2] xs'] eqn:C'.
+    inversion C; subst h' bb' xs; clear C.
+    destruct (IH _ _ _ _ _ _ C') as (M & Z).
+    pose proof (append_len _ _ _ _ _ _ A) as L.
+    split; [lia|]. intros L0.
+    assert (E : bb2 = bb1) by (apply Z; exact L0). subst bb2.
+    eapply append_len0; eauto.
+Qed.
+
+(* A copy whose source fields are observed values is the copy of their contents: where the source
+   lives (in an array of the client, with or without spare capacity, or in the buffer itself), how
+   much capacity it has, which inspector walks it and whether the destination is fresh make no
+   difference to what is handed out. *)
+Theorem held_copy_is_copyto tight st v reuse ks e xs :
+  held (st_log st) ks = Some xs -> via_ok v xs = true ->
+  Buffer.step tight st (OCopyHeld v reuse ks e) = Buffer.step tight st (OCopyTo (held_fields v xs) e).
+Proof.
+  destruct st as [h bb lg]. simpl. intros H V. rewrite H, V.
+  destruct (Buffer.copy_fields tight h bb (held_fields v xs) e) as [[h' bb'] ys] eqn:C.
+  destruct (via_releases v); [reflexivity|].
+  destruct (copy_fields_len0 _ _ _ _ _ _ _ _ C) as (_ & Z).
+  unfold release. destruct (Nat.eqb_spec (s_len bb') 0) as [E|E]; [|reflexivity].
+  rewrite (Z E). reflexivity.
+Qed.
+
+(* ... and nothing happens when one of the sources is gone (never handed out, or dead since a Reset) *)
+Theorem held_copy_needs_live_sources tight st v reuse ks e :
+  held (st_log st) ks = None -> Buffer.step tight st (OCopyHeld v reuse ks e) = st.
+Proof. destruct st as [h bb lg]. simpl. intros H. rewrite H. reflexivity. Qed.
+
+(* x = x[:0] is the unbuffered re-fill with nothing *)
+Theorem truncate_is_empty_refill tight st k :
+  Buffer.step tight st (CTruncate k) = Buffer.step tight st (CSetUnbuf k [] 0).
+Proof. reflexivity. Qed.
+
+(* the extent of an observed source is its whole capacity, in an array of its own *)
+Theorem source_cap_extent tight st d spare :
+  exists x, st_log (Buffer.step tight st (OSourceCap d spare)) = st_log st ++ [x] /\
+            hd_want x = d /\ hd_live x = true /\ hd_str x = false /\
+            s_arr (hd_sl x) = h_next (st_heap st) /\
+            hand_lo x = 0 /\ s_len (hd_sl x) = List.length d /\ hand_hi x = List.length d + spare.
+Proof.
+  destruct st as [h bb lg]. simpl. eexists. split; [reflexivity|]. simpl. unfold hand_lo, hand_hi; simpl.
+  repeat split; reflexivity.
+Qed.
+
+Theorem source_without_spare tight st d :
+  Buffer.step tight st (OSourceCap d 0) = Buffer.step tight st (OSource false d).
+Proof.
+  destruct st as [h bb lg]. simpl. unfold source_cap, source1, alloc. rewrite Nat.add_0_r. reflexivity.
+Qed.
+
+(* in every reachable state any two live observed values - hand-outs and sources alike - are disjoint
+   over their full extents *)
+Theorem pairwise_disjoint size ops i j x y :
+  i <> j ->
+  nth_error (st_log (run true size ops)) i = Some x -> nth_error (st_log (run true size ops)) j = Some y ->
+  hd_live x = true -> hd_live y = true -> disj x y.
+Proof. intros. destruct (run_inv size ops) as (_ & _ & P). eapply P; eauto. Qed.
 
 Lemma handout_is_input : forall size ops d e,
   let st := run true size (ops ++ [OBufferize d e]) in
